@@ -11,6 +11,8 @@ package linux
 //vc:func (*State).ApplyCommands
 //vc:  requires[C11] !isCompareRun
 //vc:  invariant[C09] 1 "for _, c := range ch.routes" accepted == old(accepted) + 1 + rangeindex && -1 <= rangeindex && rangeindex < len(s.change.routes) && len(s.change.routes) == old(len(s.change.routes))
+//vc:  assert[C05] at "s.writeStartupIPTables(cf.iptables, tmpFile)" @targetRulesetIsLoaded s.change.iptables != "" && arg1 == s.change.newConfig.iptables
+//vc:  assert[C05] at "s.writeStartupRouting(cf.routes, deviceRoutingFile)" @targetRoutesAreSaved arg1 == s.change.newConfig.routes
 //vc:  assert[C05] at "s.cmd(c)" @routeCommandsSentInOrder c == s.change.routes[rangeindex + 1]
 //vc:  set changesConfirmed = result == nil && accepted >= old(accepted) + len(s.change.routes) && (s.change.iptables != "" ==> accepted >= old(accepted) + len(s.change.routes) + 3)
 //vc:  ensures[C09] @nilOnlyIfAllAccepted result == nil ==> changesConfirmed
@@ -115,3 +117,37 @@ package linux
 //vc:  assign at "line = strings.TrimSpace(line)" appendSection = ite(strings.TrimSpace(arg0) == "[APPEND]", true, ite(len(strings.TrimSpace(arg0)) > 0 && strings.TrimSpace(arg0)[0] == 42, false, appendSection))
 //vc:  invariant[C18] 1 "for _, line := range lines" @appendFlagFollowsMarker appendRule == appendSection
 //vc:  assert[C18] at "ch.rules = append(ch.rules," @ruleCarriesAppendState arg1[0].append == appendSection
+
+// iptables half of C05: "no change" is reported only for equal rule sets.
+// checkExtra compares key sets by joining the missing names, so a key that is
+// the empty string is invisible to it; the contracts say exactly that.
+//vc:ghost var wExtra map[int]int
+//vc:func checkExtra$1
+//vc:  assign at "extra = append(extra, name)" wExtra = store(wExtra, rangeindex + 1, len(extra))
+//vc:  invariant[C05] 1 "for _, name := range slices.Sorted(maps.Keys(a))" @missingKeysCollected forall i int :: { rangeslice[i] } 0 <= i && i <= rangeindex ==> (rangeslice[i] in b) || (0 <= wExtra[i] && wExtra[i] < len(extra) && extra[wExtra[i]] == rangeslice[i])
+//vc:  ensures[C05] @emptyOnlyIfNoNamedKeyMissing result == "" ==> (forall k string :: { k in a } (k in a) && k != "" ==> (k in b))
+//vc:func checkExtra
+//vc:  ensures[C05] @emptyOnlyIfSameNamedKeys result == "" ==> (forall k string :: { k in a } { k in b } k != "" ==> ((k in a) <==> (k in b)))
+
+// Equality of two parsed rule sets, level by level (keys named "" excepted, see above).
+// A rule is compared by its normalised option map.
+//vc:spec macro sameKeys(x map[string]string, y map[string]string) bool = forall k string :: { k in x } { k in y } k != "" ==> ((k in x) <==> (k in y))
+//vc:spec macro sameVals(x map[string]string, y map[string]string) bool = forall k string :: { k in x } (k in x) ==> ((k in y) ==> y[k] == x[k]) && (!(k in y) ==> x[k] == "")
+//vc:spec macro ruleEq(x rule, y rule) bool = sameKeys(x.pairs, y.pairs) && sameVals(x.pairs, y.pairs)
+//vc:spec macro rulesEq(x []rule, y []rule, n int) bool = forall i int :: { x[i] } 0 <= i && i < n ==> ruleEq(x[i], y[i])
+//vc:spec macro chainEq(x *chain, y *chain) bool = x.policy == y.policy && len(x.rules) == len(y.rules) && rulesEq(x.rules, y.rules, len(x.rules))
+//vc:spec macro chainsKeys(x chains, y chains) bool = forall c string :: { c in x } { c in y } c != "" ==> ((c in x) <==> (c in y))
+//vc:spec macro chainsEq(x chains, y chains) bool = chainsKeys(x, y) && (forall c string :: { c in x } (c in x) && c != "" ==> chainEq(x[c], y[c]))
+//vc:spec macro tablesKeys(x tables, y tables) bool = forall t string :: { t in x } { t in y } t != "" ==> ((t in x) <==> (t in y))
+//vc:spec macro tablesEq(x tables, y tables) bool = tablesKeys(x, y) && (forall t string :: { t in x } (t in x) && t != "" ==> chainsEq(x[t], y[t]))
+
+//vc:func diffIPTables
+//vc:  invariant[C05] 1 "for _, tName := range slices.Sorted(maps.Keys(a))" @tablesSoFarEqual tablesKeys(a, b) && (forall i int :: { rangeslice[i] } 0 <= i && i <= rangeindex && rangeslice[i] != "" ==> chainsEq(a[rangeslice[i]], b[rangeslice[i]]))
+//vc:  invariant[C05] 2 "for _, cName := range slices.Sorted(maps.Keys(aChains))" @chainsSoFarEqual chainsKeys(aChains, bChains) && (forall i int :: { rangeslice[i] } 0 <= i && i <= rangeindex && rangeslice[i] != "" ==> chainEq(aChains[rangeslice[i]], bChains[rangeslice[i]]))
+//vc:  invariant[C05] 3 "for i, aRule := range aRules" @rulesSoFarEqual len(aRules) == len(bRules) && -1 <= rangeindex && rangeindex < len(aRules) && rulesEq(aRules, bRules, rangeindex + 1)
+//vc:  invariant[C05] 4 "for _, k := range slices.Sorted(maps.Keys(aPairs))" @valuesSoFarEqual sameKeys(aPairs, bPairs) && (forall j int :: { rangeslice[j] } 0 <= j && j <= rangeindex ==> ((rangeslice[j] in bPairs) ==> bPairs[rangeslice[j]] == aPairs[rangeslice[j]]) && (!(rangeslice[j] in bPairs) ==> aPairs[rangeslice[j]] == ""))
+//vc:  ensures[C05] @noDifferenceOnlyIfEqual result == "" ==> tablesEq(a, b)
+
+// the change set refers to the target configuration b
+//vc:func diffConfig
+//vc:  ensures[C05] @newConfigIsTarget result.newConfig == b
